@@ -2,6 +2,7 @@ package checks
 
 import (
 	"bytes"
+	"container/list"
 	stdjson "encoding/json"
 	"fmt"
 	"math"
@@ -149,7 +150,76 @@ func c06Encode(n []*yqlib.CandidateNode, indent int, unwrap bool) (string, error
 }
 
 // c06Check returns "" or (kind, detail).
+// c06Hand: YAML documents whose sharing (anchors, aliases as values and as keys, merge keys) JSON cannot carry, with the JSON they mean.
+var c06Hand = []struct{ name, yaml, json string }{
+	{"alias-value", "- &a 1\n- *a\n", `[1,1]`},
+	{"alias-map-value", "a: &m {p: 1}\nb: *m\n", `{"a":{"p":1},"b":{"p":1}}`},
+	{"alias-key", "k: &a x\n*a : 2\n", `{"k":"x","x":2}`},
+	{"anchored-key-aliased-as-value", "&k key: v\nother: *k\n", `{"key":"v","other":"key"}`},
+	{"alias-key-only-aliases-are-keys", "- &a x\n- {*a : 1}\n", `["x",{"x":1}]`},
+	{"merge-key", "a: &m {p: 1, q: 2}\nb:\n  <<: *m\n  q: 3\n", `{"a":{"p":1,"q":2},"b":{"p":1,"q":3}}`},
+	{"alias-in-nested-flow", "x: &s [1, {k: v}]\ny: {z: [*s, *s]}\n", `{"x":[1,{"k":"v"}],"y":{"z":[[1,{"k":"v"}],[1,{"k":"v"}]]}}`},
+	{"alias-to-scalar-in-key-and-value", "n: &n 5\nm: {*n : *n}\n", `{"n":5,"m":{"5":5}}`},
+}
+
+func c06CheckHand(name string) (kind, detail string) {
+	for _, h := range c06Hand {
+		if h.name != name {
+			continue
+		}
+		for _, viaPrinter := range []bool{true, false} {
+			docs, err, pan := impl.DecodeYAML(h.yaml)
+			if pan != nil || err != nil || len(docs) != 1 {
+				return "unsure", fmt.Sprintf("hand-written document does not decode: %v %v", err, pan)
+			}
+			var out string
+			var eerr error
+			var epan interface{}
+			if viaPrinter {
+				// the way the command line prints: through the printer, which explodes aliases first
+				var buf bytes.Buffer
+				func() {
+					defer func() {
+						if r := recover(); r != nil {
+							epan = r
+						}
+					}()
+					p := impl.JSONPrefs()
+					p.Indent = 0
+					pr := yqlib.NewPrinter(yqlib.NewJSONEncoder(p), yqlib.NewSinglePrinterWriter(&buf))
+					l := list.New()
+					l.PushBack(docs[0])
+					eerr = pr.PrintResults(l)
+				}()
+				out = buf.String()
+			} else {
+				out, eerr, epan = c06Encode(docs, 0, false)
+			}
+			if epan != nil {
+				return "panic", fmt.Sprintf("%v", epan)
+			}
+			if eerr != nil {
+				continue // an error is acceptable, another value is not
+			}
+			var got, want interface{}
+			if err := stdjson.Unmarshal([]byte(out), &got); err != nil {
+				return "invalid-json", fmt.Sprintf("%q: %v", out, err)
+			}
+			stdjson.Unmarshal([]byte(h.json), &want)
+			g, _ := stdjson.Marshal(got)
+			w, _ := stdjson.Marshal(want)
+			if string(g) != string(w) {
+				return "value", fmt.Sprintf("YAML %q means %s, JSON output is %s (through the printer: %v)", h.yaml, w, strings.TrimSpace(out), viaPrinter)
+			}
+		}
+	}
+	return "", ""
+}
+
 func c06Check(cs c06Case) (kind, detail string) {
+	if cs.Dir == "hand" {
+		return c06CheckHand(cs.Place)
+	}
 	yamlText, jsonText, path := cs.docs()
 	if cs.Place == "key" && cs.Scalar.Kind != "str" {
 		return "skip", "" // non-string keys: JSON has none; what they become is not specified
@@ -364,8 +434,25 @@ func c06Run(c *fw.Ctx) error {
 	if !c.Thorough() {
 		cfgs = []cfg{{0, false}, {2, true}}
 	}
-	c.Res.Bound = fmt.Sprintf("%d scalars (all strings of length <= %d over 51 code points incl. every control/escape class, look-alike strings, strings ending in line feeds, integers up to 64 bit and beyond, floats incl. exponents/inf/nan) x 5 positions x %d (indent, unwrap) settings x 2 directions", len(scalars), map[bool]int{false: 2, true: 3}[c.Thorough()], len(cfgs))
+	c.Res.Bound = fmt.Sprintf("%d scalars (all strings of length <= %d over 51 code points incl. every control/escape class, look-alike strings, strings ending in line feeds, integers up to 64 bit and beyond, floats incl. exponents/inf/nan) x 5 positions x %d (indent, unwrap) settings x 2 directions; 8 hand-written documents with anchors, aliases (as values and as keys) and merge keys, through the printer and through the encoder alone", len(scalars), map[bool]int{false: 2, true: 3}[c.Thorough()], len(cfgs))
 	var idx int64
+	for hi, h := range c06Hand {
+		idx++
+		if !c.Mine(idx) {
+			continue
+		}
+		cs := c06Case{Dir: "hand", Place: h.name}
+		kind, detail := c06Check(cs)
+		c.Eval(1)
+		c.Validated(1)
+		c.Nontrivial("hand/" + h.name)
+		if kind == "" {
+			c.Outcome("hand/" + h.name)
+			continue
+		}
+		c.Count("mismatch_"+kind, 1)
+		c.Violation(kind+"/hand/"+h.name, int64(hi), cs, detail)
+	}
 	for si, sc := range scalars {
 		for _, pl := range places {
 			for _, cf := range cfgs {
